@@ -343,6 +343,9 @@ func runC20(c *Check) {
 	ruleCarryOverDurable(c, p)
 	c.Doc("C20-R6", "EO: no error return of GetNextBatch is reachable after the durable pop of the carry-over queue.")
 	rulePoppedNotDiscarded(c, p, g, fnb)
+	c.Doc("C20-R8", "= C09-R3 on the retrieval helper the scan uses: Success only after GetIDs succeeded and every chunk was read; a failed Get is StatusError (never NotFound / HeightFromFuture, which the scan moves past).")
+	ruleRetrieveHelper(c, c.Mod(ModRoot), "C20-R8")
+	c.MinInstances("C20-R8", 4)
 	c.MinInstances("C20-R1", 1)
 	c.MinInstances("C20-R7", 1)
 	c.MinInstances("C20-R2", 1)
